@@ -33,5 +33,10 @@ def tempo_vs_pt(inp):
     return {'violates': bool(bad), 'detail': bad[:4]}
 
 
+def svd_sweep_parameters(inp):
+    from replay.c01 import svd_sweep_parameters as f
+    return f(inp)
+
+
 # thorough tier (bounded native sweeps): (function, inputs, obligation of the open finding it reproduces or None)
 THOROUGH = [('tempo_vs_pt', {}, None)]
